@@ -79,6 +79,49 @@ Theorem c06_ops_ok : forall cfg t0 evs, fresh_calls [] evs ->
 Proof. exact c06_ops_ok. Qed.
 Print Assumptions c06_ops_ok.
 
+(* retry_limit: the (N+1)-th redundant request for the task a worker already
+   holds completes the task with INTERNAL; before that the worker is told to
+   execute it again and the count goes up. *)
+Theorem retry_limit : forall c w b pr s t,
+  k_task (get_worker s w) = Some t -> (cf_retry_count (s_cfg s) <= t_retry (get_task s t))%nat ->
+  get_current_or_next c w b pr s = get_next_task c w b pr (complete_task t (mkResp cINTERNAL 0 0) false s).
+Proof. exact retry_limit. Qed.
+Print Assumptions retry_limit.
+
+Theorem retry_below_limit : forall c w b pr s t,
+  k_task (get_worker s w) = Some t -> (t_retry (get_task s t) < cf_retry_count (s_cfg s))%nat ->
+  get_current_or_next c w b pr s = sync_return_exec c w (upd_task t (fun x => x <| t_retry ::= S |>) s).
+Proof. exact retry_below_limit. Qed.
+Print Assumptions retry_below_limit.
+
+(* worker_timeout: what the callback of a lapsed worker time-out does: the
+   worker is marked terminating, its task (if any) fails with UNAVAILABLE, the
+   worker is forgotten, and if it was the last worker of a worker-created
+   queue the queue's own time-out is armed at (lapsed time + queue timeout). *)
+Theorem worker_timeout : forall w z s t,
+  k_task (get_worker (mark_terminating w s) w) = Some t ->
+  remove_stale_worker w z s =
+  let s1 := complete_task t (mkResp cUNAVAILABLE 0 0) false (mark_terminating w s) in
+  let s2 := clear_last_invocation w s1 in
+  let s3 := upd_scq (w_sk w) (fun q => q <| q_workers ::= adel wref_eqb w |>) s2 in
+  if Nat.eqb (List.length (q_workers (get_scq s3 (w_sk w)))) 0 && q_removable (get_scq s3 (w_sk w))
+  then upd_scq (w_sk w) (fun q => q <| q_cleanup := Some (z + cf_pq_noworkers (s_cfg s3)) |>) s3
+  else s3.
+Proof. exact remove_stale_worker_fails_task. Qed.
+Print Assumptions worker_timeout.
+
+(* no_waiter_timeout: the callback removes the operation; the task is
+   cancelled when it was its last operation. *)
+Theorem no_waiter_timeout : forall o s,
+  List.length (t_ops (get_task s (o_task (get_op s o)))) = 1%nat ->
+  operation_remove o s =
+  let t := o_task (get_op s o) in
+  let s1 := complete_task t (mkResp cCANCELLED 0 0) false s in
+  upd_task t (fun y => y <| t_ops := filter (fun '(_, o') => negb (Nat.eqb o o')) (t_ops y) |>)
+    (s1 <| s_ops := adel Nat.eqb o (s_ops s1) |>).
+Proof. exact operation_remove_last_cancels. Qed.
+Print Assumptions no_waiter_timeout.
+
 (* NOT PROVED YET (see docs/areas/Sched-proofs.md):
    worker_attended : every worker has k_cleanup <> None or a Synchronize call naming it;
    the queue / empty-invocation parts of Spec.c06_dump; c06_final (gc_complete). *)
